@@ -69,11 +69,17 @@ def main():
             dst = os.path.join("/verif/seeded", sid)
             os.makedirs(dst, exist_ok=True)
             for f in ("patch.diff", "demo.py", "notes.md"):
-                if os.path.exists(os.path.join(out, f)):
+                if os.path.exists(os.path.join(out, f)) and os.path.realpath(out) != os.path.realpath(dst):
                     shutil.copy(os.path.join(out, f), dst)
             meta["needs_to_manifest"] = "see notes.md"
             meta["ran"] = [f"git apply patch.diff in a scratch worktree of /repo@{meta['repo_head']}", "demo.py with/without the change",
                            "pinned pytest baseline with the change", *[f"run.py check {c} --tier quick (LADIM_REPO=<worktree>)" for c in checks]]
+            old = {}
+            if os.path.exists(os.path.join(dst, "meta.json")):
+                old = json.load(open(os.path.join(dst, "meta.json")))
+            for k in ("change", "needs_to_manifest", "caught_by_as_of_DESIGN", "author_notes_excerpt"):
+                if k in old and (k not in meta or meta[k] == "see notes.md"):
+                    meta[k] = old[k]
             json.dump(meta, open(os.path.join(dst, "meta.json"), "w"), indent=1)
         return 0
     finally:
